@@ -1048,6 +1048,73 @@ func rulePairedEdges(c *Ctx, rule string) {
 			}
 		}
 		c.check(okCount, rule, "topologicalSortIter:count-from-reverseEdges", L.pos(ts.Pos()), "a node becomes ready when as many arguments were provided as it has reverse edges (one per parameter, repetitions included)", "requireCount = len(g.reverseEdges[n]); found: "+badInit)
+		ruleReleasePerDestinationSlot(c, rule)
+	}
+}
+
+// ruleReleasePerDestinationSlot: the topological sort releases a consumer once per forward edge: an edge is passed over only
+// when its own destination slot (edgeNode.provideArgDst) was filled before. A de-duplication by anything else (the source
+// node, the result index) passes over the second of two parameters fed by one value: the counter never reaches zero, the
+// consumer is never yielded and a valid declaration is refused ("no return value provider found").
+func ruleReleasePerDestinationSlot(c *Ctx, rule string) {
+	L := c.L
+	ts := genFn(c, rule, "(*Graph).topologicalSortIter")
+	if ts == nil {
+		return
+	}
+	n := 0
+	for _, st := range storesToField(withClosures(ts), "internal/kessoku.requireCounter.count") {
+		bo, isB := st.Val.(*ssa.BinOp)
+		if !isB || bo.Op != token.SUB {
+			continue
+		}
+		n++
+		bad := ""
+		// the loop over the forward edges: the innermost loop around the decrement
+		var hdr *ssa.BasicBlock
+		for d := st.Block(); d != nil && hdr == nil; d = d.Idom() {
+			for _, pr := range d.Preds {
+				if d.Dominates(pr) && (d == st.Block() || reachable(st.Block(), d)) {
+					hdr = d
+				}
+			}
+		}
+		for _, iff := range controllingIfs(st) {
+			if iff.Block().Parent() != st.Parent() || hdr == nil || !hdr.Dominates(iff.Block()) {
+				continue
+			}
+			cond := iff.Cond
+			if u, isU := cond.(*ssa.UnOp); isU && u.Op == token.NOT {
+				cond = u.X
+			}
+			isSlot := func(k ssa.Value) bool {
+				ld, ok := resolve(k).(*ssa.UnOp)
+				if !ok || ld.Op != token.MUL {
+					return false
+				}
+				fa, ok := ld.X.(*ssa.FieldAddr)
+				return ok && fieldKey(fa) == "internal/kessoku.edgeNode.provideArgDst"
+			}
+			switch x := cond.(type) {
+			case *ssa.UnOp:
+				// a flag read from a list: the list is indexed by the edge's destination slot
+				if ia, isIA := x.X.(*ssa.IndexAddr); isIA && x.Op == token.MUL && !isSlot(ia.Index) {
+					bad = "a flag indexed by " + describe(resolve(ia.Index))
+				}
+			case *ssa.Extract:
+				if lk, isLk := x.Tuple.(*ssa.Lookup); isLk && lk.CommaOk && !isSlot(lk.Index) {
+					bad = "membership in a set keyed by " + describe(resolve(lk.Index))
+				}
+			case *ssa.Lookup:
+				if !isSlot(x.Index) {
+					bad = "a flag keyed by " + describe(resolve(x.Index))
+				}
+			}
+		}
+		c.check(bad == "", rule, "topologicalSortIter:release-per-destination-slot", L.pos(st.Pos()), "a forward edge is passed over only when its own destination slot was provided before (one release per parameter, repetitions included)", "the release is guarded by "+bad)
+	}
+	if n == 0 {
+		c.ok(rule, "topologicalSortIter: no decrement of a requireCounter recognised; release rule not applied", "shape not recognised")
 	}
 }
 
